@@ -525,9 +525,18 @@ package expr
 //@   modifies nothing
 //@ func (*FakerRandomizer).ArrayLength
 //@   params r
+//@   property C09
 //@   callspec Int params
 //@       ensures result >= 0
+//@       modifies seededState[r.rand]
 //@   ensures result >= 0
+//@   modifies* seededState[r.rand], seededState[r.faker]
+//@   frameprop C09
+//@ func (*FakerRandomizer).Int
+//@   params r
+//@   property C09
+//@   modifies* seededState[r.rand], seededState[r.faker]
+//@   frameprop C09
 //@ func DeterministicRandomizer.ArrayLength
 //@   ensures result >= 0
 //@ func DeterministicRandomizer.Int
@@ -571,3 +580,107 @@ package expr
 //@   property C10
 //@   ensures* last.rpc.tag: (a == nil ==> !result1) && (a != nil ==> result1 == (inMap(a.Meta, "rpc:tag") && len(a.Meta["rpc:tag"]) >= 1) && (result1 ==> result0 == a.Meta["rpc:tag"][len(a.Meta["rpc:tag"]) - 1]))
 //@   modifies nothing
+
+// Query parameters: "the same parameters with the same ... required flag". A query parameter of the endpoint is
+// required exactly when the endpoint's parameters require the ATTRIBUTE (the part of "attribute:wire-name"
+// before the colon): that name, looked up in e.Params, decides, and that name is what is recorded.
+//@ func (*HTTPEndpointExpr).QueryParams
+//@   params e
+//@   locals at attName
+//@   property C14
+//@   callspec (*AttributeExpr).IsRequired params a n
+//@       requires* required.by.attribute.name: a == e.Params.AttributeExpr && n == splitHead(at.Name, ":")
+//@       modifies nothing
+//@   callspec (*ValidationExpr).AddRequired params v n
+//@       requires* recorded.by.attribute.name: len(n) == 1 && n[0] == splitHead(at.Name, ":")
+//@       modifies all
+//@   modifies all
+
+// ---- the example generator is seeded from the API name (C09) -------------------------------------
+// "Generating twice ... yields byte-identical contents, independent of ... time": every value the faker-based
+// randomizer produces is drawn from its own seeded sources (r.rand, r.faker) and from nothing else.
+//@ func (*FakerRandomizer).Int32
+//@   params r
+//@   property C09
+//@   modifies* seededState[r.rand], seededState[r.faker]
+//@   frameprop C09
+//@ func (*FakerRandomizer).Int64
+//@   params r
+//@   property C09
+//@   modifies* seededState[r.rand], seededState[r.faker]
+//@   frameprop C09
+//@ func (*FakerRandomizer).String
+//@   params r
+//@   property C09
+//@   modifies* seededState[r.rand], seededState[r.faker]
+//@   frameprop C09
+//@ func (*FakerRandomizer).Bool
+//@   params r
+//@   property C09
+//@   modifies* seededState[r.rand], seededState[r.faker]
+//@   frameprop C09
+//@ func (*FakerRandomizer).Float32
+//@   params r
+//@   property C09
+//@   modifies* seededState[r.rand], seededState[r.faker]
+//@   frameprop C09
+//@ func (*FakerRandomizer).Float64
+//@   params r
+//@   property C09
+//@   modifies* seededState[r.rand], seededState[r.faker]
+//@   frameprop C09
+//@ func (*FakerRandomizer).UInt
+//@   params r
+//@   property C09
+//@   modifies* seededState[r.rand], seededState[r.faker]
+//@   frameprop C09
+//@ func (*FakerRandomizer).UInt32
+//@   params r
+//@   property C09
+//@   modifies* seededState[r.rand], seededState[r.faker]
+//@   frameprop C09
+//@ func (*FakerRandomizer).UInt64
+//@   params r
+//@   property C09
+//@   modifies* seededState[r.rand], seededState[r.faker]
+//@   frameprop C09
+//@ func (*FakerRandomizer).Email
+//@   params r
+//@   property C09
+//@   modifies* seededState[r.rand], seededState[r.faker]
+//@   frameprop C09
+//@ func (*FakerRandomizer).Hostname
+//@   params r
+//@   property C09
+//@   modifies* seededState[r.rand], seededState[r.faker]
+//@   frameprop C09
+//@ func (*FakerRandomizer).IPv4Address
+//@   params r
+//@   property C09
+//@   modifies* seededState[r.rand], seededState[r.faker]
+//@   frameprop C09
+//@ func (*FakerRandomizer).IPv6Address
+//@   params r
+//@   property C09
+//@   modifies* seededState[r.rand], seededState[r.faker]
+//@   frameprop C09
+//@ func (*FakerRandomizer).URL
+//@   params r
+//@   property C09
+//@   modifies* seededState[r.rand], seededState[r.faker]
+//@   frameprop C09
+//@ func (*FakerRandomizer).Characters
+//@   params r n
+//@   property C09
+//@   modifies* seededState[r.rand], seededState[r.faker]
+//@   frameprop C09
+//@ func (*FakerRandomizer).UUID
+//@   params r
+//@   property C09
+//@   modifies* seededState[r.rand], seededState[r.faker]
+//@   frameprop C09
+//@ func (*FakerRandomizer).Name
+//@   params r
+//@   property C09
+//@   modifies* seededState[r.rand], seededState[r.faker]
+//@   frameprop C09
